@@ -198,7 +198,7 @@ def main():
             name = 'c11_cell_%s_%s' % (rname, kind)
             names.append(name)
             out.append('''#[kani::proof]
-#[kani::unwind(7)]
+#[kani::unwind(2)]
 #[kani::stub(core::str::from_utf8, utf8_model)]
 fn %s() {
     let id: u16 = kani::any();
